@@ -262,7 +262,9 @@ theorem build_F2 {s : SExpr} (h : s.F2 = true) : (build s).F2 = true := by
     simp only [build, invert_atom (build_isAtom h), Expr.F2]; exact build_isAtom h
   | _ => simp_all [SExpr.F2, build, Expr.F2]
 
-/-- every domain value is truthy (excludes exactly the trigger of F-C01-3 / F-C02-1) -/
+/-- every domain value is truthy. Before fix commit `78cb732` (F-C01-3 / F-C02-1: a bound falsy value dropped the
+row) this was a hypothesis of every C01/C02 theorem; since the repair none of them needs it. Kept only so that the
+non-vacuity examples can state that their worlds DO contain falsy values (`domTruthyB w = false`). -/
 def DomTruthy (w : World) : Prop := ∀ v x, x ∈ w.dom v → truthy x = true
 
 /-- decidable sufficient check for `DomTruthy` -/
@@ -438,9 +440,6 @@ def cells {α} (τ : Asg) (rs : List (Env × α)) : List (Env × α) := rs.filte
 
 def keys (env : Env) : List Key := env.map (·.1)
 
-/-- all variable bindings are truthy values -/
-def EnvTruthy (env : Env) : Prop := ∀ v x, (Key.var v, x) ∈ env → truthy x = true
-
 /-- `env'` extends `env` by bindings for keys in `ks` only; new variable bindings are domain elements; keys
 stay duplicate-free -/
 def Ext (w : World) (ks : List Key) (env env' : Env) : Prop :=
@@ -476,14 +475,6 @@ theorem Ext.isSome {w : World} {ks : List Key} {a b : Env} (h : Ext w ks a b) {k
   obtain ⟨p, rfl, _, _⟩ := h
   rw [List.lookup_append]
   cases List.lookup k p <;> simp [hk]
-
-theorem Ext.envTruthy {w : World} {ks : List Key} {a b : Env} (h : Ext w ks a b) (hw : DomTruthy w)
-    (ha : EnvTruthy a) : EnvTruthy b := by
-  obtain ⟨p, rfl, hp, _⟩ := h
-  intro v x hm
-  rcases List.mem_append.mp hm with hm | hm
-  · exact hw v x ((hp _ hm).2 v rfl)
-  · exact ha v x hm
 
 theorem Ext.litFresh {w : World} {k1 k2 : List Key} {a b : Env} (h : Ext w k1 a b)
     (ha : LitFresh k2 a) (hd : ∀ i, Key.lit i ∈ k1 → Key.lit i ∉ k2) : LitFresh k2 b := by
@@ -586,10 +577,11 @@ theorem mapVal_ok {cp : Bool} {op : Val → Except Err Val} {rs0 rs : List (Env 
     have := pure_ok h2
     simp only [hx, okOr]; exact this.symm
 
-theorem evalVar_mem {w : World} {v : VarId} {env : Env} {p : Env × Val × Bool} (hp : p ∈ evalVar w v env) :
-    (∃ y, env.lookup (.var v) = some y ∧ p = (env, y, truthy y)) ∨
+theorem evalVar_mem {w : World} {cp : Bool} {v : VarId} {env : Env} {p : Env × Val × Bool}
+    (hp : p ∈ evalVarAt w cp v env) :
+    (∃ y, env.lookup (.var v) = some y ∧ p = (env, y, boundFlag cp y)) ∨
     (env.lookup (.var v) = none ∧ ∃ y ∈ w.dom v, p = ((.var v, y) :: env, y, true)) := by
-  unfold evalVar at hp
+  unfold evalVarAt at hp
   split at hp
   · rename_i y hy; left; exact ⟨y, hy, by simpa using hp⟩
   · rename_i hn; right
@@ -598,7 +590,7 @@ theorem evalVar_mem {w : World} {v : VarId} {env : Env} {p : Env × Val × Bool}
     exact ⟨hn, y, hy, rfl⟩
 
 theorem evalLit_cases (w : World) (cp : Bool) (id : Nat) (x : Val) (env : Env) :
-    (∃ y, env.lookup (.lit id) = some y ∧ evalTerm w cp (.lit id x) env = .ok [(env, y, truthy y)]) ∨
+    (∃ y, env.lookup (.lit id) = some y ∧ evalTerm w cp (.lit id x) env = .ok [(env, y, boundFlag cp y)]) ∨
     (env.lookup (.lit id) = none ∧ evalTerm w cp (.lit id x) env = .ok [((.lit id, x) :: env, x, true)]) := by
   unfold evalTerm
   cases h : env.lookup (.lit id) with
@@ -688,20 +680,21 @@ theorem evalTerm_binds (w : World) (t : Term) :
     simp only [List.mem_map] at hp; obtain ⟨x, _, rfl⟩ := hp
     exact ih false env rs0 h0 r hr
 
-/-- in operand position every result of a term is flagged true (bound values are truthy, literals unbound) -/
+/-- in operand position every result of a term is flagged true — whatever the bound values are (since the repair
+of F-C01-3 a falsy bound value is an operand like any other) -/
 theorem evalTerm_flag_operand (w : World) (t : Term) {env : Env} {rs : List (Env × Val × Bool)}
-    (h : evalTerm w false t env = .ok rs) (ht : EnvTruthy env) (hl : LitFresh t.nodes env) :
+    (h : evalTerm w false t env = .ok rs) :
     ∀ p ∈ rs, p.2.2 = true := by
   intro p hp
   cases t with
   | var v =>
     simp only [evalTerm] at h; cases h
     rcases evalVar_mem hp with ⟨y, hy, rfl⟩ | ⟨hn, y, hy, rfl⟩
-    · exact ht v y (lookup_mem' hy)
+    · rfl
     · rfl
   | lit id x =>
     rcases evalLit_cases w false id x env with ⟨y, hy, he⟩ | ⟨hn, he⟩
-    · rw [hl id (by simp [Term.nodes])] at hy; cases hy
+    · rw [he] at h; cases h; simp only [List.mem_singleton] at hp; subst hp; rfl
     · rw [he] at h; cases h; simp only [List.mem_singleton] at hp; subst hp; rfl
   | attr t n =>
     rw [evalTerm_attr] at h
@@ -777,7 +770,7 @@ theorem evalTerm_cover (w : World) (τ : Asg) (t : Term) :
     simp only [evalTerm] at h; cases h
     obtain ⟨x', hx', hc⟩ := hcov v (by simp [Term.vars])
     simp only [tval, hx'] at htv; cases htv
-    unfold evalVar
+    unfold evalVarAt
     split
     · rename_i y hy
       have := agreesB_iff.mp hag v y (lookup_mem' hy)
@@ -896,18 +889,18 @@ theorem evalCmpCore_binds {w : World} {f s : Term} {cmb : Val → Val → Except
   · exact (evalTerm_ext w s false p1.1 r2 h2 p2 hm2).isSome (evalTerm_binds w f false env r1 h1 p1 hm1 k hk)
   · exact evalTerm_binds w s false p1.1 r2 h2 p2 hm2 k hk
 
-theorem evalCmpCore_cover {w : World} (hw : DomTruthy w) {τ : Asg} {f s : Term}
+theorem evalCmpCore_cover {w : World} {τ : Asg} {f s : Term}
     {cmb : Val → Val → Except Err Bool} {env : Env} {rs : List (Env × Bool)} {a b : Val} {c : Bool}
     (hnf : f.noFlat = true) (hns : s.noFlat = true) (hcf : Covers w τ f.vars) (hcs : Covers w τ s.vars)
     (hlf : LitFresh f.nodes env) (hls : LitFresh s.nodes env)
     (hd : ∀ i, Key.lit i ∈ f.nodes → Key.lit i ∉ s.nodes)
-    (ht : EnvTruthy env) (hag : agreesB τ env = true)
+    (hag : agreesB τ env = true)
     (h : evalCmpCore w f s cmb env = .ok rs)
     (ha : tval w τ f = .ok a) (hb : tval w τ s = .ok b) (hc : cmb a b = .ok c) :
     (cells τ rs).map (·.2) = [c] := by
   obtain ⟨r1, g, h1, rfl, hg⟩ := evalCmpCore_inv h
   have hf1 : r1.filter (·.2.2) = r1 :=
-    List.filter_eq_self.mpr (evalTerm_flag_operand w f h1 ht hlf)
+    List.filter_eq_self.mpr (evalTerm_flag_operand w f h1)
   rw [hf1] at hg ⊢
   have hext1 := evalTerm_ext w f false env r1 h1
   rw [cells_flatMap (w := w) (ks := s.nodes) τ r1 g (by
@@ -924,7 +917,7 @@ theorem evalCmpCore_cover {w : World} (hw : DomTruthy w) {τ : Asg} {f s : Term}
   have hx1 := hext1 p1 hm1
   have hls1 : LitFresh s.nodes p1.1 := hx1.litFresh hls hd
   have hf2 : r2.filter (·.2.2) = r2 :=
-    List.filter_eq_self.mpr (evalTerm_flag_operand w s h2 (hx1.envTruthy hw ht) hls1)
+    List.filter_eq_self.mpr (evalTerm_flag_operand w s h2)
   rw [hf2] at hgp hc'
   rw [hgp, cells_map_fst τ r2 (fun p2 => (p2.1, c' p2)) (fun _ _ => rfl)]
   obtain ⟨p2, hc2, hv2, hm2, _⟩ := cells_single (evalTerm_cover w τ s false p1.1 r2 b hns hcs hls1 hag1 h2 hb)
@@ -952,11 +945,11 @@ theorem evalCmp_binds {w : World} {l r : Term} {op : Val → Val → Except Err 
     intro p hp k hk
     exact evalCmpCore_binds h p hp k (by simp only [List.mem_append] at hk ⊢; exact hk.symm)
 
-theorem evalCmp_cover {w : World} (hw : DomTruthy w) {τ : Asg} {l r : Term}
+theorem evalCmp_cover {w : World} {τ : Asg} {l r : Term}
     {op : Val → Val → Except Err Bool} {env : Env} {rs : List (Env × Bool)} {a b : Val} {c : Bool}
     (hnl : l.noFlat = true) (hnr : r.noFlat = true) (hcov : Covers w τ (l.vars ++ r.vars))
     (hlf : LitFresh (l.nodes ++ r.nodes) env) (hln : (litIds (l.nodes ++ r.nodes)).Nodup)
-    (ht : EnvTruthy env) (hag : agreesB τ env = true)
+    (hag : agreesB τ env = true)
     (h : evalCmp w l r op env = .ok rs)
     (ha : tval w τ l = .ok a) (hb : tval w τ r = .ok b) (hc : op a b = .ok c) :
     (cells τ rs).map (·.2) = [c] := by
@@ -967,9 +960,9 @@ theorem evalCmp_cover {w : World} (hw : DomTruthy w) {τ : Asg} {l r : Term}
   have hd := (litNodup_append hln).2.2
   rcases evalCmp_eq w l r op env with he | he
   · rw [he] at h
-    exact evalCmpCore_cover hw hnl hnr hcl hcr hll hlr hd ht hag h ha hb hc
+    exact evalCmpCore_cover hnl hnr hcl hcr hll hlr hd hag h ha hb hc
   · rw [he] at h
-    exact evalCmpCore_cover hw hnr hnl hcr hcl hlr hll (fun i hi hi' => hd i hi' hi) ht hag h hb ha hc
+    exact evalCmpCore_cover hnr hnl hcr hcl hlr hll (fun i hi hi' => hd i hi' hi) hag h hb ha hc
 
 theorem tvals_noFlat (w : World) (σ : Asg) (t : Term) (h : t.noFlat = true) :
     tvals w σ t = (tval w σ t >>= fun x => pure [x]) := by
@@ -1130,28 +1123,28 @@ theorem any_single {α} (p : α → Bool) (x : α) : [x].any p = p x := by simp
 /-- **cover** (C01_cover): for `e` in the cover fragment, every total assignment `τ` compatible with `env`
 lies in exactly one result cell of `eval w e env`, and that cell's truth flag is the first-order truth value
 of `e` under `τ`. The result cells form a decision-tree partition of the assignment space. -/
-theorem cover (w : World) (hw : DomTruthy w) (τ : Asg) (e : Expr) :
+theorem cover (w : World) (τ : Asg) (e : Expr) :
     e.Fc = true → Covers w τ e.vars → LitNodup e →
-    ∀ env rs b, EnvTruthy env → LitFresh e.nodes env → agreesB τ env = true →
+    ∀ env rs b, LitFresh e.nodes env → agreesB τ env = true →
       eval w e env = .ok rs → satE w e τ = .ok b →
       ((rs.filter fun p => agreesB τ p.1).map (·.2)) = [b] := by
   induction e with
   | cmp op l r =>
-    intro hF hcov hln env rs b ht hlf hag h hs
+    intro hF hcov hln env rs b hlf hag h hs
     simp only [Expr.Fc, Bool.and_eq_true] at hF
     simp only [eval] at h
     simp only [satE] at hs
     obtain ⟨a, b', ha, hb, hc⟩ := satCmp_inv hF.1 hF.2 hs
-    exact evalCmp_cover hw hF.1 hF.2 hcov hlf hln ht hag h ha hb hc
+    exact evalCmp_cover hF.1 hF.2 hcov hlf hln hag h ha hb hc
   | contains c i =>
-    intro hF hcov hln env rs b ht hlf hag h hs
+    intro hF hcov hln env rs b hlf hag h hs
     simp only [Expr.Fc, Bool.and_eq_true] at hF
     simp only [eval] at h
     simp only [satE] at hs
     obtain ⟨a, b', ha, hb, hc⟩ := satCmp_inv hF.1 hF.2 hs
-    exact evalCmp_cover hw hF.1 hF.2 hcov hlf hln ht hag h ha hb hc
+    exact evalCmp_cover hF.1 hF.2 hcov hlf hln hag h ha hb hc
   | truth t =>
-    intro hF hcov _ env rs b _ hlf hag h hs
+    intro hF hcov _ env rs b hlf hag h hs
     simp only [Expr.Fc] at hF
     obtain ⟨rs0, h0, rfl⟩ := eval_truth_inv h
     simp only [satE] at hs
@@ -1166,7 +1159,7 @@ theorem cover (w : World) (hw : DomTruthy w) (τ : Asg) (e : Expr) :
     simp only [List.map_cons, List.map_nil]
     rw [evalTerm_flag_cond w t hF h0 a ham, hav, hb]
   | hasType t c =>
-    intro hF hcov _ env rs b _ hlf hag h hs
+    intro hF hcov _ env rs b hlf hag h hs
     simp only [Expr.Fc] at hF
     obtain ⟨rs0, h0, rfl⟩ := eval_hasType_inv h
     simp only [satE] at hs
@@ -1181,7 +1174,7 @@ theorem cover (w : World) (hw : DomTruthy w) (τ : Asg) (e : Expr) :
     simp only [List.map_cons, List.map_nil]
     rw [hav, hb]
   | and l r ihl ihr =>
-    intro hF hcov hln env rs b ht hlf hag h hs
+    intro hF hcov hln env rs b hlf hag h hs
     simp only [Expr.Fc, Bool.and_eq_true] at hF
     obtain ⟨ls, g, h0, rfl, hg⟩ := eval_and_inv h
     simp only [satE] at hs
@@ -1200,13 +1193,13 @@ theorem cover (w : World) (hw : DomTruthy w) (τ : Asg) (e : Expr) :
       | false =>
         rw [(hg a ha).2 ha2, List.mem_singleton] at hp; subst hp; exact Ext.refl _ _ _)]
     obtain ⟨a, hca, hav, ham, haa⟩ := cells_single
-      (ihl hF.1 hcl hnl env ls bl ht (hlf.mono (subset_append_left _ _)) hag h0 hbl)
+      (ihl hF.1 hcl hnl env ls bl (hlf.mono (subset_append_left _ _)) hag h0 hbl)
     rw [hca]
     simp only [List.flatMap_cons, List.flatMap_nil, List.append_nil]
     cases hbl2 : bl with
     | true =>
       rw [hbl2] at hav
-      have := ihr hF.2 hcr hnr a.1 (g a) br ((hextl a ham).envTruthy hw ht)
+      have := ihr hF.2 hcr hnr a.1 (g a) br
         ((hextl a ham).litFresh (hlf.mono (subset_append_right _ _)) hd) haa ((hg a ham).1 hav) hbr
       rw [← hb, hbl2]; exact this
     | false =>
@@ -1214,7 +1207,7 @@ theorem cover (w : World) (hw : DomTruthy w) (τ : Asg) (e : Expr) :
       rw [(hg a ham).2 hav, ← hb, hbl2]
       simp [cells, haa]
   | elseIf l r ihl ihr =>
-    intro hF hcov hln env rs b ht hlf hag h hs
+    intro hF hcov hln env rs b hlf hag h hs
     simp only [Expr.Fc, Bool.and_eq_true] at hF
     obtain ⟨ls, g, h0, rfl, hg⟩ := eval_elseIf_inv h
     simp only [satE] at hs
@@ -1233,13 +1226,13 @@ theorem cover (w : World) (hw : DomTruthy w) (τ : Asg) (e : Expr) :
       | true =>
         rw [(hg a ha).1 ha2, List.mem_singleton] at hp; subst hp; exact Ext.refl _ _ _)]
     obtain ⟨a, hca, hav, ham, haa⟩ := cells_single
-      (ihl hF.1 hcl hnl env ls bl ht (hlf.mono (subset_append_left _ _)) hag h0 hbl)
+      (ihl hF.1 hcl hnl env ls bl (hlf.mono (subset_append_left _ _)) hag h0 hbl)
     rw [hca]
     simp only [List.flatMap_cons, List.flatMap_nil, List.append_nil]
     cases hbl2 : bl with
     | false =>
       rw [hbl2] at hav
-      have := ihr hF.2 hcr hnr a.1 (g a) br ((hextl a ham).envTruthy hw ht)
+      have := ihr hF.2 hcr hnr a.1 (g a) br
         ((hextl a ham).litFresh (hlf.mono (subset_append_right _ _)) hd) haa ((hg a ham).2 hav) hbr
       rw [← hb, hbl2]; exact this
     | true =>
@@ -1247,13 +1240,13 @@ theorem cover (w : World) (hw : DomTruthy w) (τ : Asg) (e : Expr) :
       rw [(hg a ham).1 hav, ← hb, hbl2]
       simp [cells, haa]
   | not e ih =>
-    intro hF hcov hln env rs b ht hlf hag h hs
+    intro hF hcov hln env rs b hlf hag h hs
     simp only [Expr.Fc] at hF
     obtain ⟨rs0, h0, rfl⟩ := eval_not_inv h
     simp only [satE] at hs
     obtain ⟨b0, hb0, hs⟩ := bind_ok hs
     have hb := pure_ok hs
-    obtain ⟨a, hca, hav, _, _⟩ := cells_single (ih hF hcov hln env rs0 b0 ht hlf hag h0 hb0)
+    obtain ⟨a, hca, hav, _, _⟩ := cells_single (ih hF hcov hln env rs0 b0 hlf hag h0 hb0)
     show (cells τ _).map _ = _
     rw [cells_map_fst τ rs0 (fun p => (p.1, !p.2)) (fun _ _ => rfl), hca]
     simp only [List.map_cons, List.map_nil]
